@@ -329,10 +329,19 @@ func runC12Once(c C12Case, info *kit.Info) *kit.Finding {
 			}
 			h := &c12Handle{idx: len(w.handles)}
 			var err error
-			if c.Packet {
-				h.pc, err = w.mgr.ListenPacket(addr)
-			} else {
-				h.sl, err = w.mgr.ListenStream(addr)
+			acq := make(chan struct{})
+			go func() {
+				defer close(acq)
+				if c.Packet {
+					h.pc, err = w.mgr.ListenPacket(addr)
+				} else {
+					h.sl, err = w.mgr.ListenStream(addr)
+				}
+			}()
+			select {
+			case <-acq:
+			case <-time.After(5 * time.Second):
+				return kit.Violation("listener:acquire-hangs", "op %d: listening on %s did not return within 5 s", i, addr)
 			}
 			if err != nil {
 				if strings.Contains(err.Error(), "address already in use") && len(open()) == 0 {
